@@ -105,3 +105,19 @@ def documented_exception(e):
     """C20: the documented exception types"""
     import bitstring
     return isinstance(e, (ValueError, IndexError, TypeError, bitstring.Error, OSError))
+
+
+def get_attr(obj, name):
+    """getattr() that keeps CrossHair tracing on (the builtin is patched to run its target untraced, which realises symbolic values)"""
+    try:
+        return object.__getattribute__(obj, name)
+    except AttributeError:
+        ga = getattr(type(obj), '__getattr__', None)
+        if ga is None:
+            raise
+        return ga(obj, name)
+
+
+def set_attr(obj, name, value):
+    """setattr() that keeps CrossHair tracing on"""
+    type(obj).__setattr__(obj, name, value)
